@@ -28,8 +28,21 @@ CHUNK = 30000
 TREE_FIXES = {"large", "inbase", "complexop", "inplace", "tovalue", "ufuncscale"}  # /repo HEAD carries these repairs (fix: commits 6aeb2e4..36aece9)
 
 
-def _key(r):
+def _units_class(c):
+    """conv family: what kind of unit pair (part of the key; older keys do not list it)."""
+    if c.get("ident"):
+        return "identity"
+    if c.get("from") in (19, 20, 21, 22, 23) or c.get("to") in (19, 20, 21, 22, 23):
+        return "offset"
+    if (c.get("from"), c.get("to")) in ((2, 11), (11, 2), (17, 18), (24, 25)):
+        return "same-scale"
+    return "scale"
+
+
+def _key(r, c=None):
     k = {"fam": r["fam"], "clause": r["cl"], "route": r["route"], "dtype": r["d"]}
+    if c is not None and c.get("fam") == "conv":
+        k["units"] = _units_class(c)
     k["vclass"] = r["vc"]
     k["factor"] = "up" if r["k"] > 0 else "down"
     if r["fam"] in ("ufunc", "comb", "ureal"):
@@ -73,7 +86,7 @@ def _validate(ck, obs, label):
             detail = {"case": _short(c), "observed": _oshort(side)}
             if r["cl"] == "C17c":
                 detail["observed_inplace"] = _oshort(o["i"])
-            ck.violation(_key(r), detail, case=_strip(c))
+            ck.violation(_key(r, c), detail, case=_strip(c))
             n_p += 1
     return n_p
 
@@ -84,7 +97,7 @@ def _strip(c):
 
 def _short(c):
     if c["fam"] == "conv":
-        fac = f"{impl_units(c['from'])}->{impl_units(c['to'])}" if c.get("real") else f"x2^{c['k']}"
+        fac = f"{impl_units(c['from'])}->{impl_units(c['to'])}" if (c.get("real") or c["from"] > 11 or c.get("ident")) else f"x2^{c['k']}"
         return f"{c['route']}/{c['twin']} {c['d']} {c['vc']} {'scalar' if c['shape'] == 'q' else 'array'} {fac}"
     if c["fam"] == "comb":
         return f"{c['form']} {c['op']} array {c['d0']}[u{c['ua']}] {c['va'][1]} / elements {c['d1']} [u{c['uf']}, u{c['us']}] {c['vc1']}"
@@ -94,7 +107,8 @@ def _short(c):
 
 
 def impl_units(i):
-    return {1: "m", 2: "la", 3: "lc", 4: "km", 5: "mile", 6: "cm", 7: "mm", 8: "Mm", 9: "ym", 10: "Ym", 11: "lnd", 12: "l_pl", 13: "Wh", 14: "J", 15: "dB", 16: "B"}[i]
+    return {1: "m", 2: "la", 3: "lc", 4: "km", 5: "mile", 6: "cm", 7: "mm", 8: "Mm", 9: "ym", 10: "Ym", 11: "lnd", 12: "l_pl", 13: "Wh", 14: "J", 15: "dB", 16: "B",
+            17: "N", 18: "kg*m/s**2", 19: "degC", 20: "degF", 21: "K", 22: "tc", 23: "tf", 24: "dyn", 25: "g*cm/s**2"}[i]
 
 
 def _oshort(o):
@@ -103,7 +117,7 @@ def _oshort(o):
     els = []
     for e in o.get("els", []):
         v = (f"{e['re'][0]}/{e['re'][1]}" + (f"+{e['im'][0]}/{e['im'][1]}j" if e["im"][0] else "")) if e["has"] else "(large)"
-        els.append(v + ("" if (e["mR"] or e["mW"] or e["mS"] or e["mP"]) else "!") + ("[truncated]" if e.get("mT") else ""))
+        els.append(v + ("" if (e["mR"] or e["mW"] or e["mS"] or e["mP"] or e.get("mX")) else "!") + ("[truncated]" if e.get("mT") else ""))
     return f"{'py ' if o['py'] else ''}{o['kind']}{o['size']} [{', '.join(els)}] RuntimeWarning={o['warnR']}"
 
 
@@ -134,7 +148,8 @@ def run(ck):
         open(ck.spec + f"/{cfg}.cfg", "w").write(text)
         ck.assumptions.append("transcription switches for repaired trees: " + ",".join(fixes))
     base = open(ck.spec + f"/{cfg}.cfg").read()
-    groups = ["FamsConv", "FamsUfunc", "FamsOut", "FamsComb"]
+    # experiments only: C17_GROUPS=FamsConv replays one group of families (the evidence then says so in "bound")
+    groups = list(filter(None, os.environ.get("C17_GROUPS", "").split(","))) or ["FamsConv", "FamsUfunc", "FamsOut", "FamsComb"]
 
     def export(g):
         open(ck.spec + f"/{cfg}_{g}.cfg", "w").write(base.replace("Fams <- FamsAll", "Fams <- " + g))
